@@ -35,9 +35,11 @@ ASSUMPTIONS = ["the API pipeline is a second implementation of the documentation
 # ---------------------------------------------------------------------------------------------------------------------
 # harness-side writers
 
-def write_lmpdat(path, cell, pos, els, charges, groups, labels=None):
+def write_lmpdat(path, cell, pos, els, charges, groups, labels=None, split=False):
+    """split: atoms of one element alternate between two atom types (as in a typed force-field file)"""
     from mofun.atomic_masses import ATOMIC_MASSES
-    types = list(dict.fromkeys(els))
+    akey = [(els[i], (i % 2) if split else 0) for i in range(len(els))]
+    types = list(dict.fromkeys(akey))
     L = ["harness input (written by harness)", "", "%d atoms" % len(pos), "0 bonds", "0 angles", "0 dihedrals", "0 impropers", "",
          "%d atom types" % len(types)]
     c = np.array(cell)
@@ -45,11 +47,11 @@ def write_lmpdat(path, cell, pos, els, charges, groups, labels=None):
     if abs(c[1, 0]) + abs(c[2, 0]) + abs(c[2, 1]) > 0:
         L.append(" %10.6f %10.6f %10.6f xy xz yz" % (c[1, 0], c[2, 0], c[2, 1]))
     L += ["", "Masses", ""]
-    for i, t in enumerate(types):
-        L.append(" %d %10.6f   # %s" % (i + 1, ATOMIC_MASSES[t], t))
+    for i, (t, k) in enumerate(types):
+        L.append(" %d %10.6f   # %s" % (i + 1, ATOMIC_MASSES[t], t if not split else "%s_%d" % (t, k)))
     L += ["", "Atoms", ""]
     for i, p in enumerate(pos):
-        L.append(" %d %d %d %10.6f %10.6f %10.6f %10.6f   # %s" % (i + 1, groups[i] + 1, types.index(els[i]) + 1, charges[i], p[0], p[1], p[2], els[i]))
+        L.append(" %d %d %d %10.6f %10.6f %10.6f %10.6f   # %s" % (i + 1, groups[i] + 1, types.index(akey[i]) + 1, charges[i], p[0], p[1], p[2], els[i]))
     with open(path, "w") as f:
         f.write("\n".join(L) + "\n")
 
@@ -135,8 +137,9 @@ def case(draw):
     if draw(st.booleans()) and infmt != "cml" and cellk == "ortho":
         diag = np.diag(np.array(base["cell"]))
         ax = draw(hperm.integers(0, 2))
-        # 2 mic / L in (1, 2] along one axis  ->  exactly 2 replicas there
-        opts["mic"] = float(diag[ax]) * draw(st.sampled_from([0.55, 0.75, 0.99]))
+        # 2 mic / L in (1, 2] along one axis  ->  exactly 2 replicas there; also ratios a hair (2e-4 .. 3e-4, far above
+        # float noise) above or below an integer, where the ceiling decides between n and n + 1 replicas
+        opts["mic"] = float(diag[ax]) * draw(st.sampled_from([0.55, 0.75, 0.99, 0.5001, 0.4999, 1.00015]))
     if draw(st.booleans()):
         opts["charges"] = True
     if draw(st.booleans()):
@@ -149,7 +152,37 @@ def case(draw):
     return {"mode": mode, "infmt": infmt, "outfmt": outfmt, "cell": base["cell"], "spos": base["spos"], "sels": base["sels"],
             "groups": groups, "ppos": pat["pos"], "pels": pat["els"], "rpos": rp["pos"], "rels": rp["els"],
             "findfmt": draw(st.sampled_from(["cml", "lmpdat", "cif"])), "replfmt": draw(st.sampled_from(["cml", "lmpdat", "cif"])),
-            "opts": opts, "seeds": base["seeds"], "meta": base["meta"]}
+            "opts": opts, "seeds": base["seeds"], "meta": base["meta"], "split_types": draw(st.booleans())}
+
+
+@st.composite
+def tiny_case(draw):
+    """degenerate inputs: structures of one or two atoms (a single ion in its cell), one-atom patterns"""
+    n = draw(hperm.integers(1, 2))
+    side = [draw(st.sampled_from([6.0, 7.5, 9.0, 12.0])) for _ in range(3)]
+    cell = np.diag(side)
+    sels = [draw(st.sampled_from(["C", "N", "O", "Na", "Cl"])) for _ in range(n)]
+    spos = [[draw(st.floats(0.05, 0.95)) * side[k] for k in range(3)] for _ in range(n)]
+    if n == 2 and np.linalg.norm(np.array(spos[0]) - np.array(spos[1])) < 1.0:
+        spos[1] = [(spos[0][k] + side[k] / 2.0) % side[k] for k in range(3)]
+    mode = draw(st.sampled_from(["convert", "convert", "find", "replace"]))
+    infmt = draw(st.sampled_from(["lmpdat", "cif"]))
+    opts = {}
+    if draw(hperm.integers(0, 3)) > 0:
+        opts["charges"] = True
+    if draw(st.booleans()):
+        opts["replicate"] = draw(st.sampled_from([[2, 1, 1], [1, 2, 1], [1, 1, 2], [2, 2, 1]]))
+    if draw(hperm.integers(0, 2)) == 0:
+        opts["mic"] = side[draw(hperm.integers(0, 2))] * draw(st.sampled_from([0.55, 0.75]))
+    if draw(st.booleans()):
+        opts["pp"] = True
+    others = [e for e in ["C", "N", "O", "Na", "Cl", "F"] if e != sels[0]]
+    return {"mode": mode, "infmt": infmt, "outfmt": draw(st.sampled_from(["lmpdat", "cif"])), "cell": cell.tolist(),
+            "spos": spos, "sels": sels, "groups": [draw(hperm.integers(0, 1)) for _ in sels],
+            "ppos": [[0.0, 0.0, 0.0]], "pels": [sels[0]], "rpos": [[0.0, 0.0, 0.0]], "rels": [draw(st.sampled_from(others))],
+            "findfmt": draw(st.sampled_from(["cml", "lmpdat", "cif"])), "replfmt": draw(st.sampled_from(["cml", "lmpdat", "cif"])),
+            "opts": opts, "seeds": [draw(hperm.integers(0, 2 ** 31 - 1)), draw(hperm.integers(0, 2 ** 31 - 1))],
+            "meta": {"tiny": n}, "split_types": False}
 
 
 def cli_args(c, d):
@@ -277,7 +310,8 @@ def oracle(c, stats):
     N = len(c["sels"])
     charges0 = [0.0] * N
     if c["infmt"] == "lmpdat":
-        write_lmpdat(os.path.join(d, "in.lmpdat"), c["cell"], c["spos"], c["sels"], [0.01 * (i % 7) - 0.03 for i in range(N)], c["groups"])
+        write_lmpdat(os.path.join(d, "in.lmpdat"), c["cell"], c["spos"], c["sels"], [0.01 * (i % 7) - 0.03 for i in range(N)], c["groups"],
+                     split=c.get("split_types", False))
     elif c["infmt"] == "cif":
         write_cif(os.path.join(d, "in.cif"), c["cell"], c["spos"], c["sels"])
     else:
@@ -345,6 +379,10 @@ def oracle(c, stats):
     stats.count("in:" + c["infmt"])
     stats.count("out:" + c["outfmt"])
     stats.count("n-options:%d" % len(o))
+    if c.get("split_types") and c["infmt"] == "lmpdat":
+        stats.count("input:two-types-per-element")
+    if "tiny" in c.get("meta", {}):
+        stats.count("input:%d-atom-structure" % c["meta"]["tiny"])
     if len(o) >= 2:
         stats.mark_nontrivial(c)
 
@@ -418,5 +456,6 @@ def doc_oracle(c, stats):
 
 PARTS = [
     HypPart("options", lambda tier: case(), oracle, {"quick": 800, "thorough": 10000}),
+    HypPart("tiny-structures", lambda tier: tiny_case(), oracle, {"quick": 160, "thorough": 1500}),
     EnumPart("documented-commands", doc_cases, doc_oracle, exhaustive=lambda tier: False, chunk=1),
 ]
